@@ -418,6 +418,8 @@ def run(res, ctx):
                   for _ in range(4 if tier == "quick" else 30)]
     run_batch(res, ctx, long_cases, "long")
     st = ctx["stats"]
+    import props.c17_cli as c17_cli
+    c17_cli.run(res, ctx, rng, st)
 
     # year_of against the calendar
     sweep = [BASE_DAY - 800000 + 36525 * k + rng.randint(0, 400) for k in range(0, 40)] + \
